@@ -1,8 +1,101 @@
 import RisorModel.Util
-/-! Line-protocol front end of the C12 model (stub until the model exists). -/
+import RisorModel.C12.Model
+import RisorModel.Generated.C12
+/-!
+Line-protocol front end of the C12 model (requests after the leading `C12` field).
+
+  hist <events> <path> <op>   events: comma-separated `N:<o>` `R:<c>` `C:<c>` `K` `U` `O:<o>:<c>`
+                              (`<o>`,`<c>`: `-` or a letter A.. naming a host OS object);
+                              path: `-` or letters, outermost first: c b t d (call), s g m (spawn),
+                              k (clone-call), i (import + call of a module function), I (module body)
+      reply: one TAB-separated field per executing event: `<trace>#<acc>#<gfOK>#<specOK>#<stale>`
+             (`stale`: the guard `staleStd` of the known finding C12-std-stream-attr-cached),
+             trace = observations joined by `|` (`A:Getenv($0)`, `R:…` real OS, `!sink` direct)
+  ops                         the operation table: `name=goFn=ncalls` joined by `,`
+
+The model runs on the inventory and facts regenerated from the source on this run
+(`Generated.C12`), which `Ties.lean` proves equal to the reviewed ones the theorems are about.
+-/
 namespace Risor.C12
+open Risor.Util
+
+def osLetter (n : Nat) : String := String.singleton (Char.ofNat (65 + n))
+
+def showOS : OSId → String
+  | .real => "R"
+  | .host n => osLetter n
+
+def parseOS (s : String) : Option (Option OSId) :=
+  match s.toList with
+  | ['-'] => some none
+  | [c] => if 65 ≤ c.toNat ∧ c.toNat ≤ 90 then some (some (.host (c.toNat - 65))) else none
+  | _ => none
+
+def showCall (c : Call) : String :=
+  if c.m == .fRead then "F.Read*" else c.m.name ++ "(" ++ ",".intercalate c.args ++ ")"
+
+def showObs : Obs → String
+  | .via o c => showOS o ++ ":" ++ showCall c
+  | .direct s => "!" ++ s
+
+def showTrace (t : List Obs) : String :=
+  if t.isEmpty then "-" else "|".intercalate (t.map showObs)
+
+def showAcc (a : List OSId) : String :=
+  if a.isEmpty then "-" else String.join (a.map showOS)
+
+def parseEv (s : String) : Option Ev :=
+  match s.splitOn ":" with
+  | ["N", o] => (parseOS o).map Ev.new
+  | ["R", c] => (parseOS c).map Ev.run
+  | ["C", c] => (parseOS c).map Ev.call
+  | ["K"] => some .clone
+  | ["U"] => some .root
+  | ["O", o, c] =>
+    match parseOS o, parseOS c with
+    | some (some o), some c => some (.runWith o c)
+    | _, _ => none
+  | _ => none
+
+def wrap1 (ch : Char) (p : Prog) : Option Prog :=
+  match ch with
+  | 'c' | 'b' | 't' | 'd' => some (.call p)
+  | 's' | 'g' | 'm' => some (.spawn p)
+  | 'k' => some (.cloneCall p)
+  | 'i' => some (.seq (.imp .skip) (.call p))
+  | 'I' => some (.imp p)
+  | _ => none
+
+def wrapPath : List Char → Prog → Option Prog
+  | [], p => some p
+  | ch :: rest, p => (wrapPath rest p).bind (wrap1 ch)
+
+def parsePath (s : String) (p : Prog) : Option Prog :=
+  if s = "-" then some p else wrapPath s.toList p
+
+def opOfName (s : String) : Option Op := allOps.find? (fun o => o.name == s)
 
 def handle : List String → String
-  | _ => "error\tnot-implemented"
+  | ["hist", evs, path, opn] =>
+    match (evs.splitOn ",").mapM parseEv, opOfName opn with
+    | some evs, some o =>
+      match parsePath path (.op o) with
+      | some body =>
+        let sc : Script := { pre := o.usesGF, body := body }
+        let inv := Risor.Generated.C12.inventory
+        let F := Risor.Generated.C12.facts
+        let traces := runHist inv F sc initState evs
+        let caches := cachesBefore inv F sc initState evs
+        let specs := specHist sc specInit evs
+        let parts := (List.zip (List.zip traces caches) specs).map
+          fun (p : (List Obs × Cache) × (List OSId × Bool)) =>
+            showTrace p.1.1 ++ "#" ++ showAcc p.2.1 ++ "#" ++ toString p.2.2 ++ "#" ++
+              toString (specOK p.2.1 p.2.2 sc.pre p.1.1) ++ "#" ++ toString (staleStd p.2.1 p.1.2 body)
+        if parts.isEmpty then "-" else "\t".intercalate parts
+      | none => "error\tbad-path"
+    | _, _ => "error\tbad-request"
+  | ["ops"] =>
+    ",".intercalate (allOps.map fun o => o.name ++ "=" ++ o.goFn ++ "=" ++ toString o.calls.length)
+  | _ => "error\tunknown-request"
 
 end Risor.C12
